@@ -115,7 +115,7 @@ def pick_names(rng, n, style="hostile"):
     return pool[:n]
 
 
-_GP_NAME = re.compile(r"(?<![\w:.*?!-])(tm\d+|[vtcwilpmef]\d+)(?![\w*?!-])")
+_GP_NAME = re.compile(r"(?<![\w:.*?!-])(tm\d+|[vtcwilpmefa]\d+)(?![\w*?!-])")
 
 
 def rename_gen_prog(text, rng, style="hostile"):
